@@ -155,6 +155,9 @@ REGISTRY["C05"] = {
         {"name": "TestC05Nested", "env": {"VERIF_UNRESTRICTED": "1"}, "checks": {"quick": 200, "thorough": 2000}, "shards": {"quick": 8, "thorough": 8}},
         {"name": "TestC05Funnel", "checks": {"quick": 100, "thorough": 2500}, "shards": {"quick": 4, "thorough": 16}, "gomaxprocs": [4, 1, 2, 16]},
         {"name": "TestC05Foreign", "checks": {"quick": 150, "thorough": 2500}, "shards": {"quick": 4, "thorough": 8}, "gomaxprocs": [4, 1, 2, 16]},
+        # "... or ended elsewhere": a token of the fork that is withdrawn as the losing alternative of an event-based gateway (or wins and
+        # ends elsewhere) while its sibling waits at the inclusive join - the C06 campaign (IncSibling / IncMerge shapes)
+        {"name": "TestC06EventGateway", "pkg": "props/c06", "label": "fork-token-withdrawn-at-event-gateway", "checks": {"quick": 150, "thorough": 3000}, "shards": {"quick": 4, "thorough": 8}},
     ],
 }
 
@@ -165,7 +168,7 @@ REGISTRY["C12"] = {
                    "blocks wrapped in 1..3 nested embedded sub-processes (inside parallel/inclusive branches too). Each run is in lock-step with the token "
                    "game (so the first request after the sub-process appears only after the last inner answer, exactly once; one ProcessLandMarkTrace per "
                    "activation; the enclosing instance completes) and the two engine runs must request the same logical tasks at every step and end with the "
-                   "same variables and completion status. TestC12MultiStart: sub-processes with 1..3 inner start events whose branches hold 0..2 tasks or are consumed at the start "
+                   "same variables and completion status. TestC12CondOut: an activity with 2..3 conditional outgoing flows, as a plain task and wrapped in 1..3 nested sub-processes (the conditional flows then leave the outermost sub-process): the tokens continue on the same flows in both variants, those whose condition holds. TestC12MultiStart: sub-processes with 1..8 inner start events whose branches hold 0..2 tasks or are consumed at the start "
                    "event itself (false condition), optionally inside a parallel branch, under perturbation at start.flow / subprocess.activate, in lock-step with the token game. "
                    "Every request, at process level and inside sub-processes alike, must be made in a context that descends from the one given to StartAll (the harness starts every "
                    "instance with a context that differs from the construction context by a value)."),
@@ -177,6 +180,7 @@ REGISTRY["C12"] = {
     "tests": [
         {"name": "TestC12Metamorphic", "checks": {"quick": 80, "thorough": 2500}, "shards": {"quick": 16, "thorough": 32}, "gomaxprocs": [4, 1, 2, 16]},
         {"name": "TestC12MultiStart", "checks": {"quick": 250, "thorough": 6000}, "shards": {"quick": 8, "thorough": 16}, "gomaxprocs": [4, 16, 2, 1]},
+        {"name": "TestC12CondOut", "checks": {"quick": 150, "thorough": 4000}, "shards": {"quick": 2, "thorough": 8}},
         # event nodes inside sub-processes behave (and announce themselves) like their inline counterparts: the C11 campaign, whose catch events sit at process
         # level or inside 1..2 nested sub-processes, is part of this check
         {"name": "TestC11Delivery", "pkg": "props/c11", "label": "catch-events-inside-sub-processes", "checks": {"quick": 100, "thorough": 3000}, "shards": {"quick": 4, "thorough": 8}},
@@ -243,7 +247,8 @@ REGISTRY["C11"] = {
                    "new task requests must be exactly those of the listeners the model releases (each waiting token once per delivered event, nothing for "
                    "non-matching or not-armed deliveries); completion iff the model is empty. Boundary catch events (attached to tasks that hold one or two tokens, re-activated hosts, "
                    "repeated and racing events) are exercised by re-running the unrestricted C10 campaign as part of this check. TestC11ThrowStart: the instance is started by triggering an intermediate throw event "
-                   "(ThrowAll or StartWith with the element) instead of a start event; 1..3 catch events (signal / message) behind it, 1..6 events delivered one by one: the tasks requested are exactly those behind the listening catch events an event matches."),
+                   "(ThrowAll or StartWith with the element) instead of a start event; 1..3 catch events (signal / message) behind it, 1..6 events delivered one by one: the tasks requested are exactly those behind the listening catch events an event matches. "
+                   "TestC11AfterCancel: start -> task -> catch -> task -> end started with a context of its own; 0..6 events while it runs, the run context (and sometimes the construction context) cancelled, 2..8 events afterwards: every ConsumeEvent call has returned at the next fixpoint."),
     "level_note": EVENT_TRUST,
     "technique": "rapid property test over generated event/answer scripts, lock-step differential against the token-game model, stuck detection by goroutine snapshot",
     "rule": ("Distinct = descriptor (shape, catch definitions, script, perturbation seed). Non-trivial = >=2 events delivered of which at least one released a listener and at least one had no effect "
@@ -251,6 +256,7 @@ REGISTRY["C11"] = {
     "tests": [
         {"name": "TestC11Delivery", "checks": {"quick": 150, "thorough": 5000}, "shards": {"quick": 16, "thorough": 16}, "gomaxprocs": [4, 2, 16, 1]},
         {"name": "TestC11ThrowStart", "checks": {"quick": 200, "thorough": 6000}, "shards": {"quick": 2, "thorough": 8}},
+        {"name": "TestC11AfterCancel", "checks": {"quick": 200, "thorough": 6000}, "shards": {"quick": 2, "thorough": 8}},
         # boundary catch events are catch events too: the C10 campaign that keeps several tokens in a host and repeated events in the domain
         # (failures are attributed to findings C10-F1/F2/F3 only if the run agrees step by step with the model of those deviations)
         {"name": "TestC10Boundary", "pkg": "props/c10", "label": "boundary-catch-events", "env": {"VERIF_UNRESTRICTED": "1"},
@@ -326,6 +332,9 @@ REGISTRY["C09"] = {
         # trace order of boundary-event flows (hosts entered again, two tokens in one host): every driven run checks that a flow id is announced once
         {"name": "TestC10Boundary", "pkg": "props/c10", "label": "boundary-event-flows", "env": {"VERIF_UNRESTRICTED": "1"}, "checks": {"quick": 100, "thorough": 3000}, "shards": {"quick": 4, "thorough": 8}},
         {"name": "TestC10Boundary", "pkg": "props/c10", "label": "boundary-event-flows-main", "checks": {"quick": 60, "thorough": 2000}, "shards": {"quick": 4, "thorough": 8}},
+        # nothing dropped on the way from inner flows to the subscribers of the instance's tracer: sub-processes with 1..8 start events
+        # (the first inner flows are already sending while later start events are still being triggered) - the C12 campaign
+        {"name": "TestC12MultiStart", "pkg": "props/c12", "label": "inner-traces-of-multi-start-sub-processes", "checks": {"quick": 250, "thorough": 6000}, "shards": {"quick": 8, "thorough": 16}, "gomaxprocs": [16, 4, 2, 16]},
     ],
 }
 
@@ -349,6 +358,9 @@ REGISTRY["C13"] = {
         {"name": "TestC13Funnel", "checks": {"quick": 150, "thorough": 4000}, "shards": {"quick": 4, "thorough": 16}},
         {"name": "TestC13FarDates", "checks": {"quick": 300, "thorough": 20000}, "shards": {"quick": 2, "thorough": 16}},
         {"name": "TestC13Many", "checks": {"quick": 40, "thorough": 1000}, "shards": {"quick": 4, "thorough": 8}, "gomaxprocs": [16, 4, 2, 1]},
+        # "after cancellation a timer never fires again / continues exactly once per firing it was LISTENING for": timer boundary events on hosts that complete
+        # before the timer is due, are interrupted, or are entered again - the C10 campaign (a fifth of its cases attach a duration timer, mock clock)
+        {"name": "TestC10Boundary", "pkg": "props/c10", "label": "timer-boundary-events", "checks": {"quick": 300, "thorough": 3000}, "shards": {"quick": 4, "thorough": 8}},
     ],
 }
 
